@@ -29,6 +29,14 @@ func TestUpgrade(t *testing.T) {
 		for i := 0; i < n; i++ {
 			upgradeScenario(t, h, modes[i%len(modes)], i)
 		}
+		// a slow uplink: run in real time (see slowPosts), so only a few
+		nslow := 3
+		if h.Thorough() {
+			nslow = 40
+		}
+		for i := 0; i < nslow; i++ {
+			upgradeScenario(t, h, "slowPost", i)
+		}
 	})
 }
 
@@ -76,7 +84,17 @@ func upgradeScenario(t *testing.T, h *H, mode string, idx int) {
 		mu               sync.Mutex
 	)
 	ping, pingTO := 3*time.Second, 3*time.Second
-	synctest.Test(t, func(t *testing.T) {
+	upTO := 2 * time.Second
+	// While a POST is under way the client's Send holds transportMu's read lock and the completion of the upgrade waits
+	// for the write lock: a goroutine blocked on a mutex keeps a synctest bubble's clock from advancing, so the slow-uplink
+	// scenarios run in real time, with everything scaled down.
+	realTime := mode == "slowPost"
+	run := func(f func(t *testing.T)) { synctest.Test(t, f) }
+	if realTime {
+		ping, pingTO, upTO = 2*time.Second, 2*time.Second, time.Second
+		run = func(f func(t *testing.T)) { f(t) }
+	}
+	run(func(t *testing.T) {
 		nw := newMemNet()
 		var srvSock eio.ServerSocket
 		sockReady := make(chan struct{})
@@ -86,7 +104,7 @@ func upgradeScenario(t *testing.T, h *H, mode string, idx int) {
 			mu.Unlock()
 			close(sockReady)
 			return &eio.Callbacks{OnPacket: srvGot.add}
-		}, &eio.ServerConfig{PingInterval: ping, PingTimeout: pingTO, UpgradeTimeout: 2 * time.Second,
+		}, &eio.ServerConfig{PingInterval: ping, PingTimeout: pingTO, UpgradeTimeout: upTO,
 			WebSocketAcceptOptions: &websocket.AcceptOptions{CompressionMode: websocket.CompressionDisabled, InsecureSkipVerify: true}})
 		if err := srv.Run(); err != nil {
 			t.Fatal(err)
@@ -129,8 +147,8 @@ func upgradeScenario(t *testing.T, h *H, mode string, idx int) {
 			OnClose:  func(r eio.Reason, err error) { mu.Lock(); cliClosed = string(r); mu.Unlock() },
 		}, &eio.ClientConfig{
 			Transports:     []string{"polling", "websocket"},
-			HTTPTransport:  &http.Transport{DialContext: nw.Dial, DisableCompression: true},
-			UpgradeTimeout: 2 * time.Second,
+			HTTPTransport:  slowPosts(&http.Transport{DialContext: nw.Dial, DisableCompression: true}, mode, idx),
+			UpgradeTimeout: upTO,
 			UpgradeDone: func(string) {
 				mu.Lock()
 				upgraded = true
@@ -202,7 +220,9 @@ func upgradeScenario(t *testing.T, h *H, mode string, idx int) {
 			}
 		}()
 		time.Sleep(time.Duration(200+h.R.Intn(400)) * time.Millisecond)
-		if mode != "normal" {
+		if realTime {
+			time.Sleep(3 * time.Second) // past the upgrade timeout and past the slowest POST
+		} else if mode != "normal" {
 			time.Sleep(3 * time.Second) // past the upgrade timeout
 		}
 		close(stop)
@@ -210,12 +230,18 @@ func upgradeScenario(t *testing.T, h *H, mode string, idx int) {
 		time.Sleep(2 * (ping + pingTO)) // drain; the connection must survive heartbeats on whatever transport it is
 		srvTransport, cliTransport = srvSock.TransportName(), cli.TransportName()
 		cli.Close()
-		time.Sleep(10 * time.Second)
+		if realTime {
+			time.Sleep(300 * time.Millisecond)
+		} else {
+			time.Sleep(10 * time.Second)
+		}
 		srv.Close()
 		hs.Close()
 		nw.Close()
 		nw.cutAll()
-		time.Sleep(10 * time.Minute)
+		if !realTime {
+			time.Sleep(10 * time.Minute)
+		}
 	})
 	desc := fmt.Sprintf("upgrade attempt %s (#%d): server sent %d, client sent %d, upgraded=%v", mode, idx, sSent, cSent, upgraded)
 	h.NonTrivial(desc)
@@ -258,7 +284,10 @@ func upgradeScenario(t *testing.T, h *H, mode string, idx int) {
 	if mode == "normal" && (!upgraded || srvTransport != "websocket" || cliTransport != "websocket") {
 		h.Violation("C07", "an unobstructed upgrade does not complete", desc, fmt.Sprintf("server on %s, client on %s", srvTransport, cliTransport))
 	}
-	if mode != "normal" && mode != "cutProbe" && (upgraded || srvTransport != "polling" || cliTransport != "polling") {
+	if mode == "slowPost" && (srvTransport != cliTransport || upgraded != (cliTransport == "websocket")) {
+		h.Violation("C07", "after an upgrade attempt the two sides are not on the same transport", desc, fmt.Sprintf("server on %s, client on %s, UpgradeDone reported=%v; client closed=%q errors=%v", srvTransport, cliTransport, upgraded, cliClosed, cliErrors))
+	}
+	if mode != "normal" && mode != "cutProbe" && mode != "slowPost" && (upgraded || srvTransport != "polling" || cliTransport != "polling") {
 		h.Violation("C07", "a failed upgrade attempt does not leave the connection on its original transport", desc, fmt.Sprintf("server on %s, client on %s", srvTransport, cliTransport))
 	}
 	// model line (multiset of deliveries and final transports for this amount of traffic around the swap)
@@ -272,6 +301,45 @@ func upgradeScenario(t *testing.T, h *H, mode string, idx int) {
 	}
 	h.Case(fmt.Sprintf("up sb=%d sa=%d cb=%d ca=%d ok=%s", sb, sSent-sb, cb, cSent-cb, b01(upgraded)),
 		fmt.Sprintf("cGot=%s sGot=%s server=%s client=%s", intsOrDash(cg), intsOrDash(sg), srvTransport, cliTransport))
+}
+
+// slowPosts delays the long-polling POSTs of the first seconds (a slow uplink): the POST that is under way when the
+// server's answer to the probe arrives may outlast the client's upgrade timeout
+type slowRT struct {
+	base  http.RoundTripper
+	delay []time.Duration
+	mu    sync.Mutex
+	n     int
+}
+
+func (s *slowRT) RoundTrip(req *http.Request) (*http.Response, error) {
+	if req.Method == http.MethodPost {
+		s.mu.Lock()
+		var d time.Duration
+		if s.n < len(s.delay) {
+			d = s.delay[s.n]
+		}
+		s.n++
+		s.mu.Unlock()
+		if d > 0 {
+			time.Sleep(d)
+		}
+	}
+	return s.base.RoundTrip(req)
+}
+
+func slowPosts(base http.RoundTripper, mode string, idx int) http.RoundTripper {
+	if mode != "slowPost" {
+		return base
+	}
+	// the k-th POST takes 0.4 .. 2.4 s (the upgrade timeout is 1 s here); which one is slow and how slow varies with the scenario index
+	ds := []time.Duration{1700 * time.Millisecond, 900 * time.Millisecond, 1100 * time.Millisecond, 2400 * time.Millisecond, 400 * time.Millisecond}
+	delay := make([]time.Duration, 4)
+	delay[idx%4] = ds[(idx/4)%len(ds)]
+	if idx%3 == 0 {
+		delay[(idx+1)%4] = ds[(idx/2)%len(ds)]
+	}
+	return &slowRT{base: base, delay: delay}
 }
 
 func trimInts(xs []int) []int {
